@@ -1,10 +1,11 @@
 import LhasaV.Driver.OpsCrc
 import LhasaV.Driver.OpsHeader
 import LhasaV.Driver.OpsDecoder
+import LhasaV.Driver.OpsReader
 /-! `lhv`: one operation per input line, one canonical result line per operation. -/
 namespace LhasaV.Driver
 
-def dispatchers : List (List String → Option String) := [opCrc, opHeader, opDecoder]
+def dispatchers : List (List String → Option String) := [opCrc, opHeader, opDecoder, opReader]
 
 def runLine (line : String) : String :=
   let toks := (line.trimAscii.toString.splitOn " ").filter (· ≠ "")
